@@ -186,7 +186,7 @@ static const char *op_name(int code)
     return code > 0 && code < OP__N ? n[code] : "?";
 }
 
-enum { CFG_PROP = 0, CFG_TYPE, CFG_POOL, CFG_FAULTS, CFG_PROVIDE, CFG_TWIN, CFG_ALLOCDEF, CFG_FAULTSWEEP, CFG_RELAY, CFG_POOLPROV };
+enum { CFG_PROP = 0, CFG_TYPE, CFG_POOL, CFG_FAULTS, CFG_PROVIDE, CFG_TWIN, CFG_ALLOCDEF, CFG_FAULTSWEEP, CFG_RELAY, CFG_POOLPROV, CFG_FFMODE };
 
 enum { F_ORDER = 1, F_SAME_PAYLOAD = 2, F_IMMEDIATE = 4,
        F_COMPLETE = 8, /* documented never to drop: everything accepted comes out once the loop and the clock ran */
@@ -388,6 +388,8 @@ static struct sink {
     uint64_t fd_hash;           /* of the flow definition accepted last */
     struct urequest *lodged[8]; /* sink-latency requests registered here */
     unsigned nlodged;
+    struct urequest *parked[8]; /* the pipe's own flow format requests, answered later (CFG_FFMODE 2) */
+    unsigned nparked;
     bool blocking;              /* holds what arrives and blocks the pump it came from */
     struct uchain held, blockers;
 } sinks[NSINK];
@@ -410,6 +412,7 @@ static void src_pump_cb(struct upump *upump) { (void)upump; }
 static bool complete_tainted;          /* something happened that legitimately drops or keeps buffers */
 static bool sink_blocked_ever;
 static uint64_t buffer_max_size, largest_input;
+static bool ff_in_limbo;         /* the pipe's flow format request was withdrawn unanswered and is lodged nowhere */
 /* C20, first clause at any later instant: what the last accepted setter of option
  * w stored, until something that may legitimately change it (another accepted
  * setter of the same pipe that shares its storage, an accepted flow definition,
@@ -462,6 +465,18 @@ static int catch(struct uprobe *uprobe, struct upipe *upipe, int event, va_list 
     ut_events++;
     if (event != UPROBE_PROVIDE_REQUEST)
         trace_add('e', (uint64_t)event);
+    else if (plan->cfg[CFG_FFMODE]) {
+        /* a flow format asked of the probes (no output to ask): nobody knows,
+         * the application is incomplete from here on */
+        va_list copy;
+        va_copy(copy, args);
+        struct urequest *rq = va_arg(copy, struct urequest *);
+        va_end(copy);
+        uint64_t tracer = 0;
+        if (rq != NULL && rq->type == UREQUEST_FLOW_FORMAT &&
+            (rq->uref == NULL || !ubase_check(uref_attr_get_unsigned(rq->uref, &tracer, UDICT_TYPE_UNSIGNED, "x.tracer"))))
+            provider_failed = true;
+    }
     if (!ut_first_event_seen) {
         ut_first_event_seen = true;
         if (event != UPROBE_READY && checking())
@@ -529,7 +544,13 @@ static void sink_input(struct upipe *upipe, struct uref *uref, struct upump **up
     }
     /* C04: the definition this output accepted is still the one the pipe calls
      * its current one */
-    if (checking() && s->accepted && ut != NULL && !ut_dead && !fault_fired && plan->cfg[CFG_PROP] == 4) {
+    /* (not for upipe_video_blank and the bin around it: the getter is a control
+     * call from inside the pipe's own output, the pipe's control function ends
+     * with its check, and a check nested in a check lets go of the
+     * self-reference twice - the idiom of section 7.3, here triggered by this
+     * harness only: no output calls its upstream back from its input function) */
+    bool reentrant_getter_ok = strcmp(types[type].name, "video_blank") && strcmp(types[type].name, "blank_source");
+    if (checking() && s->accepted && ut != NULL && !ut_dead && !fault_fired && plan->cfg[CFG_PROP] == 4 && reentrant_getter_ok) {
         struct uref *cur = NULL;
         if (ubase_check(upipe_get_flow_def(ut, &cur)) && cur != NULL && dict_hash(cur) != s->fd_hash)
             sim_violation(V_STALE_FLOW_DEF, "%s delivers a buffer although its current flow definition (get_flow_def) is not the one "
@@ -616,6 +637,26 @@ static int sink_control(struct upipe *upipe, int command, va_list args)
                 sim_violation(V_AFTER_DEAD, "%s registers a request at its output after dead", types[type].name);
             return UBASE_ERR_NONE;
         }
+        /* the pipe's own flow format request: this output is the one that knows.
+         * It agrees with what is proposed, at once or when the loop next runs
+         * (what an output behind a queue does); mode 0: nobody answers */
+        if (rq->type == UREQUEST_FLOW_FORMAT && rq->uref != NULL && plan->cfg[CFG_FFMODE]) {
+            ff_in_limbo = false;
+            if (plan->cfg[CFG_FFMODE] == 2) {
+                if (s->nparked < 8) {
+                    s->parked[s->nparked++] = rq;
+                    SIM_PROBE("sweep_flow_format_request_parked");
+                }
+                return UBASE_ERR_NONE;
+            }
+            struct uref *ans = uref_dup(rq->uref);
+            if (ans == NULL) {
+                provider_failed = true;
+                return UBASE_ERR_ALLOC;
+            }
+            SIM_PROBE("sweep_flow_format_answered_at_once");
+            return urequest_provide_flow_format(rq, ans);
+        }
         if (provide() & 1) {
             int err = upipe_throw_provide_request(upipe, rq);
             if (!ubase_check(err))
@@ -627,6 +668,15 @@ static int sink_control(struct upipe *upipe, int command, va_list args)
     case UPIPE_UNREGISTER_REQUEST: {
         struct urequest *rq = va_arg(args, struct urequest *);
         uint64_t tracer = 0;
+        for (unsigned k = 0; k < s->nparked; k++)
+            if (s->parked[k] == rq) {
+                /* withdrawn before it was answered (the output is being
+                 * disconnected): until it is lodged somewhere again nobody
+                 * will answer it, a pipe that waits for it waits for good */
+                s->parked[k] = s->parked[--s->nparked];
+                ff_in_limbo = true;
+                break;
+            }
         if (rq->type == UREQUEST_SINK_LATENCY ||
             (rq->type == UREQUEST_FLOW_FORMAT && rq->uref != NULL &&
              ubase_check(uref_attr_get_unsigned(rq->uref, &tracer, UDICT_TYPE_UNSIGNED, "x.tracer")))) {
@@ -740,6 +790,7 @@ static void env_setup(void)
     row_seq = 0;
     pic_rows = !strcmp(types[type].name, "row_join") ? 4 : 16;
     opt_model_forget();
+    ff_in_limbo = false;
     buffer_max_size = 0;        /* (upipe_buffer's default: nothing fits until the application says how much) */
     ut = NULL;
     ut_ready = ut_dead = ut_events = ut_fatal = ut_error = 0;
@@ -1150,6 +1201,7 @@ static int option_access(int w, bool set, uint64_t *v, const char **what)
     return UBASE_ERR_UNHANDLED;
 }
 
+static void answer_parked(void);
 static void do_op_inner(const struct sim_op *op)
 {
     sim_ev(op_name(op->code), (uint64_t)op->a[0], (uint64_t)op->a[1]);
@@ -1325,6 +1377,7 @@ static void do_op_inner(const struct sim_op *op)
         break;
     }
     case OP_RUN:
+        answer_parked();
         upump_sim_mgr_set_budget(upump_mgr, 1 + (uint64_t)op->a[0] % 16);
         upump_mgr_run(upump_mgr, NULL);
         break;
@@ -1664,11 +1717,30 @@ static void req_final_probe(void)
 /* C05, last clause but one: what a pipe keeps for later comes out once its
  * output takes data again, the loop runs and time passes. Judged only on
  * histories in which nothing may legitimately drop or keep a buffer. */
+/* the outputs answer the flow format requests they parked */
+static void answer_parked(void)
+{
+    for (int i = 0; i < NSINK; i++) {
+        struct sink *s = &sinks[i];
+        while (s->nparked) {
+            struct urequest *rq = s->parked[--s->nparked];
+            struct uref *ans = rq->uref != NULL ? uref_dup(rq->uref) : NULL;
+            if (ans == NULL) {
+                provider_failed = true;
+                continue;
+            }
+            SIM_PROBE("sweep_flow_format_answered_later");
+            urequest_provide_flow_format(rq, ans);
+        }
+    }
+}
+
 static void drain(void)
 {
+    answer_parked();
     bool complete_env = (provide() & 31) == 31;
     if (!(types[type].flags & F_COMPLETE) || complete_tainted || any_refusal || fault_fired || provider_failed ||
-        !complete_env || cur_out == NULL || seq > MAXSEQ || ut_fatal || ut_error)
+        !complete_env || cur_out == NULL || seq > MAXSEQ || ut_fatal || ut_error || ff_in_limbo)
         return;
     for (int i = 0; i < NSINK; i++)
         sink_let_go(&sinks[i]);
@@ -1793,6 +1865,9 @@ static bool run_once(void)
             ut = NULL;
             upipe_release(p);
         }
+        /* (the outputs answer what they parked: a pipe that waits for its flow
+         * format keeps itself until then) */
+        answer_parked();
         /* pipes that keep themselves alive until their pumps are done */
         if (sweep_k && (types[type].flags & F_TYPED))
             sim_alloc_suspend();
@@ -1807,7 +1882,7 @@ static bool run_once(void)
             sim_violation(V_READY_ORDER, "%s threw ready %u times", types[type].name, ut_ready);
         else if (checking() && ut_dead > 1)
             sim_violation(V_DEAD, "%s threw dead %u times", types[type].name, ut_dead);
-        else if ((!complete_env || provider_failed || incomplete_alloc_def) && ut_dead == 0) {
+        else if ((!complete_env || provider_failed || incomplete_alloc_def || ff_in_limbo) && ut_dead == 0) {
             /* a pipe may keep itself (and what it holds) alive while it waits
              * for a manager, a clock or an event loop nobody provides: the
              * application is incomplete, nothing is decided about leaks */
@@ -1942,6 +2017,7 @@ static void gen(const char *pr, struct sim_rng *r, struct sim_plan *p)
     p->cfg[CFG_ALLOCDEF] = sim_rng_below(r, 128) | (sim_rng_chance(r, 1, 6) ? (sim_rng_chance(r, 1, 2) ? 256 : 512) : 0);
     p->cfg[CFG_RELAY] = sim_rng_chance(r, 1, 3);
     p->cfg[CFG_POOLPROV] = sim_rng_chance(r, 1, 3);
+    p->cfg[CFG_FFMODE] = sim_rng_below(r, 3);
     int n = 3 + (int)sim_rng_below(r, 24);
     if ((p->cfg[CFG_PROP] == 1 || p->cfg[CFG_PROP] == 4) && !p->cfg[CFG_TWIN] && sim_rng_chance(r, 1, 8)) {
         /* single-fault sweep over a short fault-free history */
